@@ -16,13 +16,24 @@ def h_encoded_len(ctx):
     return [(None, a.attrs['enc_len'])]
 
 
+def h_with_ibc_prefixed(ctx):
+    """the action in the form that is stored and emitted: same identity (tag), fee asset ibc-prefixed, and an encoded length of its OWN (the denom string changes,
+    so the protobuf size of the emitted form differs from the size of the form that was handed in)"""
+    a = ctx.ex.deref_val(ctx.st, ctx.args[0])
+    if a.attrs.get('prefixed'):
+        return [(None, a)]
+    b = Obj(RDS); b.attrs['tag'] = a.attrs.get('tag'); b.attrs['prefixed'] = True; b.attrs['enc_len'] = z3.BitVec(f'prefixed_size_{a.attrs.get("tag")}', 64)
+    b.fields.update(a.fields)
+    return [(None, b)]
+
+
 def engine():
-    hooks = [(re.compile(r'(^|::)encoded_len$'), h_encoded_len), (re.compile(r'(^|::)with_ibc_prefixed$'), lambda ctx: [(None, ctx.args[0])])]
+    hooks = [(re.compile(r'(^|::)encoded_len$'), h_encoded_len), (re.compile(r'(^|::)with_ibc_prefixed$'), h_with_ibc_prefixed)]
     return loader.load(['astria-composer'], hooks=hooks, scalar_types={'astria_core::primitive::v1::RollupId': 256, 'RollupId': 256})
 
 
-def mk_action(tag):
-    a = Obj(RDS); a.attrs['enc_len'] = z3.BitVec(f'size_{tag}', 64); a.attrs['tag'] = tag
+def mk_action(tag, prefixed=True):
+    a = Obj(RDS); a.attrs['enc_len'] = z3.BitVec(f'size_{tag}' if prefixed else f'raw_size_{tag}', 64); a.attrs['tag'] = tag; a.attrs['prefixed'] = prefixed
     return a
 
 
@@ -78,7 +89,7 @@ def c16_push(run):
     K = (0, 1, 2); Q = (0, 1, 2)
     run.bound(current_bundle='0..2 actions', finished_queue='0..2 bundles of 1 action', sizes='all usize (encoded_len is an oracle, stable per action)', capacity='all usize')
     run.bound(magnitudes='max bundle size and every encoded length < 2^63 (Rust allocations cannot exceed isize::MAX); at usize::MAX the saturating size arithmetic is outside the claim')
-    run.assume('encoded_len (protobuf) is an arbitrary but per-action fixed usize; with_ibc_prefixed does not change the identity of the action')
+    run.assume('encoded_len (protobuf) is an arbitrary usize fixed per action AND per form: the handed-in form and the ibc-prefixed form that is emitted have unrelated sizes; with_ibc_prefixed keeps the identity of the action')
     n_paths = 0
     for k in K:
         for q in Q:
@@ -86,9 +97,10 @@ def c16_push(run):
             cur, cur_acts, cur_size = mk_bundle(ex, 'cur', k, mx)
             fins = [mk_bundle(ex, f'fin{j}', 1, mx) for j in range(q)]
             factory = B.struct(ex, 'BundleFactory', curr_bundle=cur, finished=M.new_vec('VecDeque<SizedBundle>', [b for b, _, _ in fins]), finished_queue_capacity=cap)
-            new = mk_action('new'); size = new.attrs['enc_len']
+            new = mk_action('new', prefixed=False); size = z3.BitVec('prefixed_size_new', 64)      # every check is about the size of the form that is emitted
+            raw = new.attrs['enc_len']
             lim = z3.BitVecVal(1 << 63, 64)
-            inv = [z3.ZeroExt(2, cur_size) == sum_sizes(cur_acts), z3.ULE(cur_size, mx), z3.ULT(mx, lim), z3.ULT(size, lim)] + [z3.ULE(fs, mx) for _, _, fs in fins]
+            inv = [z3.ZeroExt(2, cur_size) == sum_sizes(cur_acts), z3.ULE(cur_size, mx), z3.ULT(mx, lim), z3.ULT(size, lim), z3.ULT(raw, lim)] + [z3.ULE(fs, mx) for _, _, fs in fins]
             st = ex.start(fac[0], [B.cell(factory), new])
             st.pc += inv
             fits = z3.ULE(z3.ZeroExt(2, cur_size) + z3.ZeroExt(2, size), z3.ZeroExt(2, mx))
@@ -106,6 +118,10 @@ def c16_push(run):
                 res = p.result.discr
                 run.sample({'cur': k, 'finished': q, 'path': i, 'result': res, 'current_after': ctags, 'finished_after': ftags})
                 if res == 'Ok':
+                    stored = [ex.deref_val(p, x) for x in B.fld(ex, p, B.fld(ex, p, fo, 'curr_bundle', 'SizedBundle'), 'buffer', 'Vec<Action>').attrs['items']]
+                    last = stored[-1].fields.get(('RollupDataSubmission', 0)) if stored and isinstance(stored[-1], Obj) else None
+                    run.prove(f'the action is stored in its emitted (ibc-prefixed) form, and that is the form whose size was counted {lab}', p.pc,
+                              z3.BoolVal(isinstance(last, Obj) and bool(last.attrs.get('prefixed')) and last.attrs.get('tag') == 'new'))
                     pushed_into_current = (ctags == pre_cur + ['new'] and ftags == pre_fin)
                     flushed = (ctags == ['new'] and ftags == pre_fin + [pre_cur])
                     if pushed_into_current:
